@@ -171,13 +171,22 @@ def _tv_mutex(ctx):
     for sc in scen:
         if sc["reset"].get("cfg") != "W":
             continue
-        for i, h in enumerate(sc["all"]):
+        calls, open_ = [], {}      # Lock calls of the workers: [goroutine, member, t of inv, t of ret (None = never)]
+        for e in sc["all"]:
+            if e.get("op") != "lock" or e.get("probe") or "t" not in e:
+                continue
+            if e.get("ev") == "inv":
+                open_[e.get("p")] = [e.get("p"), e.get("m"), e["t"], None]
+                calls.append(open_[e.get("p")])
+            elif e.get("ev") == "ret" and e.get("p") in open_:
+                open_.pop(e.get("p"))[3] = e["t"]
+        for h in sc["all"]:
             if h.get("ev") != "hold" or not h.get("timeout_ms"):
                 continue
             t0, t1 = h["t"], h["t"] + h["ms"]
-            late = [e for e in sc["all"] if e.get("ev") == "inv" and e.get("op") == "lock" and e.get("m") != h.get("m")
-                    and t0 + 3 * h["timeout_ms"] < e.get("t", 0) < t1 - 50]
-            pending = [e for e in sc["all"] if e.get("ev") == "inv" and e.get("op") == "lock" and e.get("p") != h.get("p") and e.get("t", 0) < t1]
+            # calls of other members that were in progress at some instant later than 3 time-outs into the critical section
+            late = [c for c in calls if c[1] != h.get("m") and c[2] < t1 - 50 and (c[3] is None or c[3] > t0 + 3 * h["timeout_ms"])]
+            pending = [c for c in calls if c[0] != h.get("p") and c[2] < t1 and (c[3] is None or c[3] > t0)]
             longholds.append({"scen": sc["reset"].get("scen"), "k_x10": h["ms"] * 10 // h["timeout_ms"], "timeout_ms": h["timeout_ms"],
                               "configured": bool(sc["reset"].get("configured")), "late_other_member_calls": len(late), "contending_calls": len(pending)})
     ctx.cov["mutex_long_holds"] = longholds
